@@ -6,5 +6,8 @@ CONSTANTS
   MaxLen = 3
   MaxTraffic = 0
   Reuse = "statement"
+  Paths = {"whole", "wholeOther", "res"}
+  Norm <- MCNorm
+  Defaulting = {}
 INVARIANTS ShPrint
 CHECK_DEADLOCK FALSE
